@@ -179,6 +179,7 @@ class Module:
             raise AnalysisError("cannot parse %s: %s" % (rel, e))
         # locals that were merely renamed get their reference names back (alpha-equivalent program, see alpha.py)
         from . import alpha
+        self.alpha_stripped_logging = alpha.strip_new_pure_logging(self.tree, rel)
         self.alpha_moved_constants = alpha.inline_new_module_constants(self.tree, name, os.path.dirname(path))
         self.tree = alpha.normalise_shape(self.tree)
         self.alpha_renames = alpha.normalise(self.tree, name)
